@@ -284,7 +284,7 @@ func c18FlightGen(rt *rapid.T) c18Case {
 }
 
 func TestVerif_C18_singleflight(t *testing.T) {
-	kit.Run(t, c18ID, "singleflight", kit.Opts{Quick: 6000, Thorough: 240000}, c18FlightGen,
+	kit.Run(t, c18ID, "singleflight", kit.Opts{Quick: 6000, Thorough: 200000}, c18FlightGen,
 		func(c c18Case) kit.Verdict { return c18FlightInterp(t, c) })
 }
 
@@ -428,7 +428,7 @@ func c18LockedGen(rt *rapid.T) c18Case {
 }
 
 func TestVerif_C18_lockedcalls(t *testing.T) {
-	kit.Run(t, c18ID, "lockedcalls", kit.Opts{Quick: 6000, Thorough: 240000}, c18LockedGen,
+	kit.Run(t, c18ID, "lockedcalls", kit.Opts{Quick: 6000, Thorough: 200000}, c18LockedGen,
 		func(c c18Case) kit.Verdict { return c18LockedInterp(t, c) })
 }
 
@@ -723,6 +723,6 @@ func c18ManagerGen(rt *rapid.T) c18Case {
 }
 
 func TestVerif_C18_resourcemanager(t *testing.T) {
-	kit.Run(t, c18ID, "resourcemanager", kit.Opts{Quick: 5000, Thorough: 160000}, c18ManagerGen,
+	kit.Run(t, c18ID, "resourcemanager", kit.Opts{Quick: 5000, Thorough: 140000}, c18ManagerGen,
 		func(c c18Case) kit.Verdict { return c18ManagerInterp(t, c) })
 }
